@@ -316,8 +316,11 @@ Acc(e) ==
     [] OTHER -> {"END"}
 
 \* alpm: 1 = explicit pkgrel, 0 = none.  (pkgrel = the digits after a final "-", go-univers' reading: Alpm!ASplit)
-Part(e, text) == IF e = "alpm" /\ (LET cs == S2C(text)  h == LastIndexOf(cs, 45) IN
-                                   h > 0 /\ h < Len(cs) /\ \A i \in h + 1..Len(cs) : IsDigit(cs[i])) THEN 1 ELSE 0
+\* 2 = a hyphen followed by something else (pkgver text for go-univers, a pkgrel for libalpm's parseEVR): its own class
+Part(e, text) == IF e # "alpm" THEN 0
+                 ELSE LET cs == S2C(text)  h == LastIndexOf(cs, 45) IN
+                      IF h = 0 THEN 0
+                      ELSE IF h < Len(cs) /\ \A i \in h + 1..Len(cs) : IsDigit(cs[i]) THEN 1 ELSE 2
 
 -----------------------------------------------------------------------------
 (* The automaton.                                                            *)
